@@ -99,13 +99,20 @@ def _always_returns(body):
 def _bind(helper, call):
     """{param: argument expr} or None"""
     a = helper.args
-    if a.vararg or a.kwarg or any(isinstance(x, ast.Starred) for x in call.args) or any(k.arg is None for k in call.keywords):
+    # `f(x, *CONST, y)` with a literal tuple / list: the elements are the arguments
+    cargs = []
+    for x in call.args:
+        if isinstance(x, ast.Starred) and isinstance(x.value, (ast.Tuple, ast.List)) and not any(isinstance(e, ast.Starred) for e in x.value.elts):
+            cargs += list(x.value.elts)
+        else:
+            cargs.append(x)
+    if a.vararg or a.kwarg or any(isinstance(x, ast.Starred) for x in cargs) or any(k.arg is None for k in call.keywords):
         return None
     pos = [x.arg for x in a.posonlyargs + a.args]
     out = {}
-    if len(call.args) > len(pos):
+    if len(cargs) > len(pos):
         return None
-    for p, v in zip(pos, call.args):
+    for p, v in zip(pos, cargs):
         out[p] = v
     kwn = pos + [x.arg for x in a.kwonlyargs]
     for k in call.keywords:
